@@ -109,6 +109,25 @@ def finished_counts_oracle():
             if r["exc"]:
                 out.append("the shell raised %s on %r after the program had finished" % (r["exc"], cmd))
                 break
+    # a program counter set outside the program (in front of it, behind it, far away): every command still returns
+    # (seed C14f: finished() forgot negative program counters, the listing and stepping commands then indexed the
+    # program with them)
+    for pcv in ("-100", "-1", "-2", "65535", "3", "2"):
+        for cmd in ("list", "ll", "next", "step", "n 3", "continue", "break .", "info", "i stack", "print R1", "print pc",
+                    "dis", "doc", "undo", "restart"):
+            rs = dc.RealSession("INC(R1, 1)\nINC(R2, 1)\n", {"big_stack": False, "init": [], "warn_return_on": True})
+            if not rs.ok:
+                continue
+            r = rs.command("pc = " + pcv, budget=3.0)
+            if r["exc"]:
+                out.append("the shell raised %s on %r" % (r["exc"], "pc = " + pcv))
+                break
+            r = rs.command(cmd, budget=3.0)
+            if r["exc"]:
+                out.append("after `pc = %s` the shell %s on %r" % (pcv, "did not return from" if r["exc"] == "Budget" else "raised " + r["exc"], cmd))
+                break
+        if out:
+            break
     return out
 
 
